@@ -2,7 +2,7 @@
 from . import core, exprio, graphs, graphcorr
 from .core import Finding
 
-THEOREMS = []
+THEOREMS = ["Cspuz.C06.C06_cycle_regular_aux", "Cspuz.C06.C06_cycle_regular_prim", "Cspuz.C06.C06_regular_is_cycle", "Cspuz.C06.C06_cycle_aux", "Cspuz.C06.C06_cycle_prim", "Cspuz.C06.C06_path_regular", "Cspuz.C06.C06_regular_is_path", "Cspuz.C06.C06_path", "Cspuz.C06.C06_path_aux_unimplemented"]
 
 
 def correspond(ctx):
